@@ -266,6 +266,8 @@ mod openssled {
     pub enum KafkaStream {
         Plain(TcpStream),
         Ssl(SslStream<TcpStream>),
+        #[cfg(feature = "verif_hooks")]
+        Hook(Box<dyn super::verif_hooks::HookStream>),
     }
 
     impl IsSecured for KafkaStream {
@@ -279,18 +281,32 @@ mod openssled {
             match *self {
                 KafkaStream::Plain(ref s) => s,
                 KafkaStream::Ssl(ref s) => s.get_ref(),
+                #[cfg(feature = "verif_hooks")]
+                KafkaStream::Hook(_) => unreachable!("hook stream has no tcp stream"),
             }
         }
 
         pub fn set_read_timeout(&self, dur: Option<Duration>) -> io::Result<()> {
+            #[cfg(feature = "verif_hooks")]
+            if let KafkaStream::Hook(_) = *self {
+                return Ok(());
+            }
             self.get_ref().set_read_timeout(dur)
         }
 
         pub fn set_write_timeout(&self, dur: Option<Duration>) -> io::Result<()> {
+            #[cfg(feature = "verif_hooks")]
+            if let KafkaStream::Hook(_) = *self {
+                return Ok(());
+            }
             self.get_ref().set_write_timeout(dur)
         }
 
         pub fn shutdown(&mut self, how: Shutdown) -> io::Result<()> {
+            #[cfg(feature = "verif_hooks")]
+            if let KafkaStream::Hook(ref mut s) = *self {
+                return s.hook_shutdown();
+            }
             self.get_ref().shutdown(how)
         }
     }
@@ -300,6 +316,8 @@ mod openssled {
             match *self {
                 KafkaStream::Plain(ref mut s) => s.read(buf),
                 KafkaStream::Ssl(ref mut s) => s.read(buf),
+                #[cfg(feature = "verif_hooks")]
+                KafkaStream::Hook(ref mut s) => s.read(buf),
             }
         }
     }
@@ -309,12 +327,16 @@ mod openssled {
             match *self {
                 KafkaStream::Plain(ref mut s) => s.write(buf),
                 KafkaStream::Ssl(ref mut s) => s.write(buf),
+                #[cfg(feature = "verif_hooks")]
+                KafkaStream::Hook(ref mut s) => s.write(buf),
             }
         }
         fn flush(&mut self) -> io::Result<()> {
             match *self {
                 KafkaStream::Plain(ref mut s) => s.flush(),
                 KafkaStream::Ssl(ref mut s) => s.flush(),
+                #[cfg(feature = "verif_hooks")]
+                KafkaStream::Hook(ref mut s) => s.flush(),
             }
         }
     }
@@ -397,6 +419,10 @@ impl KafkaConnection {
     ) -> Result<KafkaConnection> {
         use crate::Error;
 
+        #[cfg(feature = "verif_hooks")]
+        if let Some(r) = verif_hooks::connect(host) {
+            return KafkaConnection::from_stream(KafkaStream::Hook(r?), id, host, rw_timeout);
+        }
         let stream = TcpStream::connect(host)?;
         let stream = match security {
             Some((connector, verify_hostname)) => {
@@ -421,5 +447,40 @@ impl KafkaConnection {
             None => KafkaStream::Plain(stream),
         };
         KafkaConnection::from_stream(stream, id, host, rw_timeout)
+    }
+}
+
+// --------------------------------------------------------------------
+
+/// Verification hook (cargo feature `verif_hooks`, off by default): lets
+/// a test harness supply the byte stream underneath a `KafkaConnection`
+/// instead of a `TcpStream`.  Nothing in here is compiled without the
+/// feature.
+#[cfg(feature = "verif_hooks")]
+pub mod verif_hooks {
+    use std::cell::RefCell;
+    use std::io::{self, Read, Write};
+
+    /// The stream a harness hands out for a connection.
+    pub trait HookStream: Read + Write {
+        fn hook_shutdown(&mut self) -> io::Result<()> {
+            Ok(())
+        }
+    }
+
+    /// Called with "host:port" whenever the client opens a connection.
+    pub type Connector = Box<dyn FnMut(&str) -> io::Result<Box<dyn HookStream>>>;
+
+    thread_local! {
+        static CONNECTOR: RefCell<Option<Connector>> = RefCell::new(None);
+    }
+
+    /// Installs (or removes) the connector for the current thread.
+    pub fn set_connector(c: Option<Connector>) {
+        CONNECTOR.with(|cell| *cell.borrow_mut() = c);
+    }
+
+    pub(super) fn connect(host: &str) -> Option<io::Result<Box<dyn HookStream>>> {
+        CONNECTOR.with(|cell| cell.borrow_mut().as_mut().map(|f| f(host)))
     }
 }
